@@ -160,13 +160,13 @@ type fileB struct {
 }
 
 type pkgB struct {
-	name    string
-	path    string // ROOT/<name> or "" for main
-	imports []int  // indexes into prog.pkgs
-	files   []*fileB
-	nvars   int
-	varFile []int // file index of var i
-	varRank []int
+	name       string
+	path       string // ROOT/<name> or "" for main
+	imports    []int  // indexes into prog.pkgs
+	files      []*fileB
+	nvars      int
+	varFile    []int // file index of var i
+	varRank    []int
 	hseq       int
 	hasLink    bool
 	hasCounter bool
